@@ -5,6 +5,7 @@ mod common;
 mod crash;
 mod props;
 mod rawmodel;
+mod sched;
 mod vecmodel;
 
 use common::runner::main_for;
@@ -33,6 +34,7 @@ fn main() {
         "C05" => main_for::<props::c05::P>(rest),
         "C12" => main_for::<props::c12::P>(rest),
         "C15" => main_for::<props::c15::P>(rest),
+        "C09" => main_for::<props::c09::P>(rest),
         "C07" => main_for::<props::c07::P>(rest),
         "C08" => main_for::<props::c08::P>(rest),
         "C13" => main_for::<props::c13::P>(rest),
